@@ -264,7 +264,15 @@ def inline_temporaries(fnode, expr, depth=4, keep=(), inline_calls=False, inline
                 return Sub(self.d - 1).visit(copy.deepcopy(single[node.id]))
             return node
 
-    return ast.fix_missing_locations(Sub(depth).visit(copy.deepcopy(expr)))
+    return ast.fix_missing_locations(reorder_operands(Sub(depth).visit(copy.deepcopy(expr)), fnode))
+
+
+def reorder_operands(expr, scope=None):
+    """the canonical operand order (see _OperandOrder) for an expression assembled after the
+    tree was normalised (inlined temporaries, substituted loop variables); modifies and returns it"""
+    if os.environ.get("HV_NO_OPORDER"):
+        return expr
+    return _OperandOrder().visit(expr)
 
 
 def single_def(fnode, name):
@@ -565,6 +573,83 @@ def _loops_to_comprehensions(tree):
     return tree
 
 
+class _OperandOrder(ast.NodeTransformer):
+    """one spelling for operand orders that cannot be observed: a single comparison is written
+    with < / <= (`b > a` becomes `a < b`), == and != have a literal on the right and otherwise
+    their operands in text order, a numeric literal stands first in a product and last in a sum"""
+
+    @staticmethod
+    def _numeric(n):
+        return isinstance(n, ast.Constant) and isinstance(n.value, (int, float)) and not isinstance(n.value, bool)
+
+    def visit_BinOp(self, node):
+        self.generic_visit(node)
+        if isinstance(node.op, ast.Mult) and self._numeric(node.right) and not self._numeric(node.left):
+            node.left, node.right = node.right, node.left
+        elif isinstance(node.op, ast.Add) and self._numeric(node.left) and not self._numeric(node.right):
+            node.left, node.right = node.right, node.left
+        return node
+
+    def visit_Compare(self, node):
+        self.generic_visit(node)
+        if len(node.ops) != 1:
+            return node
+        op, a, b = node.ops[0], node.left, node.comparators[0]
+        if isinstance(op, ast.Gt):
+            node.left, node.comparators, node.ops = b, [a], [ast.Lt()]
+        elif isinstance(op, ast.GtE):
+            node.left, node.comparators, node.ops = b, [a], [ast.LtE()]
+        elif isinstance(op, (ast.Eq, ast.NotEq)):
+            ca, cb = isinstance(a, ast.Constant), isinstance(b, ast.Constant)
+            if (ca and not cb) or (ca == cb and self._key(b) < self._key(a)):
+                node.left, node.comparators = b, [a]
+        return node
+
+    def __init__(self, comprehension_names=()):
+        # names bound by the comprehensions that enclose the node being visited
+        self.masked = set()
+
+    def _comp(self, node):
+        mine = {x.id for g in node.generators for x in ast.walk(g.target) if isinstance(x, ast.Name)} - self.masked
+        self.masked |= mine
+        self.generic_visit(node)
+        self.masked -= mine
+        return node
+
+    visit_ListComp = visit_SetComp = visit_GeneratorExp = visit_DictComp = _comp
+
+    def _key(self, node):
+        """text order that does not depend on what a comprehension calls its variables"""
+        import re as _re
+        t = ast.unparse(node)
+        if self.masked:
+            t = _re.sub(r"\b(%s)\b" % "|".join(sorted(_re.escape(m) for m in self.masked)), "_c", t)
+        return _re.sub(r"\b_c\d+\b", "_c", t)
+
+
+def _comprehension_names(tree):
+    out = set()
+    for n in ast.walk(tree):
+        if isinstance(n, ast.comprehension):
+            for x in ast.walk(n.target):
+                if isinstance(x, ast.Name):
+                    out.add(x.id)
+    return out
+
+
+def as_less(node):
+    """(smaller side, strict?, larger side) of a single ordering comparison, whichever way it
+    is written (`a < b`, `b > a`); None for anything else"""
+    if not (isinstance(node, ast.Compare) and len(node.ops) == 1):
+        return None
+    a, op, b = node.left, node.ops[0], node.comparators[0]
+    if isinstance(op, (ast.Lt, ast.LtE)):
+        return a, isinstance(op, ast.Lt), b
+    if isinstance(op, (ast.Gt, ast.GtE)):
+        return b, isinstance(op, ast.Gt), a
+    return None
+
+
 def normalise_tree(tree):
     aliases = {}
     for n in ast.walk(tree):
@@ -582,6 +667,8 @@ def normalise_tree(tree):
         tree = _ControlShape().visit(tree)
     if not os.environ.get("HV_NO_LOOPCOMP"):
         tree = _loops_to_comprehensions(tree)
+    if not os.environ.get("HV_NO_OPORDER"):
+        tree = _OperandOrder(_comprehension_names(tree)).visit(tree)
     return ast.fix_missing_locations(tree)
 
 
@@ -656,15 +743,29 @@ def canon(src, squeeze=True):
     import re as _re
     for _a, _full in ALIASES.items():
         src = _re.sub(r"(?<![\w.])%s\." % _a, _full + ".", src)
+    header = False
     try:
         import warnings as _w
         with _w.catch_warnings():
             _w.simplefilter("ignore")
-            tree = ast.parse(src.strip())
+            try:
+                tree = ast.parse(src.strip())
+            except SyntaxError:
+                # a compound-statement header on its own (`if a > b:`)
+                if not (src.strip().endswith(":") and src.strip().split()[0] in ("if", "while", "for", "with")):
+                    raise
+                tree = ast.parse(src.strip() + "\n    pass")
+                header = True
+        if not os.environ.get("HV_NO_OPORDER"):
+            tree = ast.fix_missing_locations(_OperandOrder(_comprehension_names(tree)).visit(tree))
         if len(tree.body) == 1 and isinstance(tree.body[0], ast.Expr):
             t = unparse(tree.body[0].value)
         else:
             t = unparse(tree)
+        if header:
+            t = t.rstrip()
+            assert t.endswith("pass")
+            t = t[:-4]
     except SyntaxError:
         t = src.replace('"', "'")
     return "".join(t.split()) if squeeze else " ".join(t.split())
